@@ -264,6 +264,8 @@ class Interp:
         self.adts = adts or {}
         self.depth_cap = 40
         self.notes = []
+        self.discr_types = {}
+        self.diverged = []      # states of paths that ended in a panic / diverging call
 
     # ---- places --------------------------------------------------------------------------------
     def resolve(self, st, frame, place):
@@ -379,6 +381,8 @@ class Interp:
             return ('unk', 'aggr')
         if k == 'discr':
             v = self.read_res(st, self.resolve(st, frame, rv['place']))
+            if rv.get('pty') and v is not None and v[0] != 'adt':
+                self.discr_types[freeze(st, v)] = rv['pty']
             return ('discr', v)
         if k == 'binop':
             a = self.operand(st, frame, rv['a'])
@@ -458,7 +462,7 @@ class Interp:
         while True:
             visits = dict(visits)
             visits[bbi] = visits.get(bbi, 0) + 1
-            if visits[bbi] > 300:
+            if visits[bbi] > 40:
                 st.ev('LOOP-CAP', body['generic_path'], bbi)
                 self.notes.append('loop cap in ' + body['generic_path'])
                 return
@@ -481,7 +485,7 @@ class Interp:
                 continue
             if k == 'assert':
                 c = self.operand(st, frame, t['cond'])
-                st.ev('assert', body['generic_path'], t.get('msg', '')[:30], show(freeze(st, c))[:120], t.get('span', ''))
+                st.ev('assert', body['generic_path'], t.get('msg', '')[:40], freeze(st, c), 1 if t.get('expected') else 0, t.get('span', ''))
                 bbi = t['t']
                 continue
             if k == 'return':
@@ -501,9 +505,13 @@ class Interp:
                     continue
                 arms = [(int(v), b) for v, b in t['arms']] + [(None, t['otherwise'])]
                 live = []
+                dead = self.uninhabited_variants(d)
                 for v, b in arms:
                     tb = body['blocks'][b]
                     if tb['term']['k'] == 'unreachable' and not tb['stmts']:
+                        continue
+                    if v is not None and v in dead:
+                        st.ev('uninhabited-arm', body['generic_path'], v)
                         continue
                     live.append((v, b))
                 for v, b in live:
@@ -522,6 +530,7 @@ class Interp:
                 for s2, ret in self.call(st, t, argv, depth, dty):
                     if tgt is None:
                         s2.ev('diverge', callee_key(t['callee']), t.get('span', ''))
+                        self.diverged.append(s2)
                         continue
                     if dty and ret is not None and ret[0] in ('app', 'fld', 'sym', 'cat'):
                         n = ty_bytes_len(dty)
@@ -532,6 +541,23 @@ class Interp:
                 return
             st.ev('UNHANDLED-TERM', k)
             return
+
+    def uninhabited_variants(self, d):
+        """variant indices of the scrutinee's type that carry a field of an uninhabited type (Infallible / !):
+        no value of such a variant exists, so the arm is unreachable by typing (DESIGN C12 R12.3)"""
+        if d[0] != 'discr':
+            return ()
+        ty = self.discr_types.get(d[1])
+        if not ty:
+            return ()
+        t = self.suite.types.get(ty)
+        if not t:
+            return ()
+        out = []
+        for i, v in enumerate(t['variants']):
+            if any(f['ty'] in ('std::convert::Infallible', '!', 'core::convert::Infallible') for f in v['fields']):
+                out.append(i)
+        return out
 
     def concretize(self, st, d):
         if d[0] == 'discr':
